@@ -3,6 +3,8 @@ REALS = "Claims are about the real-number function the code denotes (floats read
 CHECKS = {
  "C13": {"text": "For symbolic beta0,b1..b3,a0,a1 (all nf at once) and the concrete nf=3..6 coefficients, z3 decides that d/da1 of every exact evolution integral equals its integrand and that it vanishes at a1=a0 (both sign cases of the NNLO discriminant; N3LO with one real root + conjugate pair and with three real roots), that every expanded integral's derivative equals the Taylor truncation, and that roots() returns roots of the beta polynomial. Bounded by order <= 4 and the root configurations listed.",
          "note": REALS + " The defining integral is replaced by its ODE characterisation (dJ/da1 = integrand, J(a0,a0)=0)."},
+ "C20": {"text": "Every function of eko.beta and eko.gamma is executed with nf symbolic (QCD) or nl symbolic and nf enumerated 0..6 (QED, mixed) and zeta values as opaque symbols; z3 decides that the resulting polynomial stays within 1e-11*scale of the literature polynomial (refs/rge_literature.py, transcribed independently with equation numbers) on the whole box, and that the dispatchers select the right coefficient.",
+         "note": REALS + " The literature table is part of the trusted base."},
 }
 NOT_APPLICABLE = {
  "C03": "Schedule independence of multiprocessing.Pool over QUADPACK integrations: process scheduling and Fortran quadrature have no encodable semantics; nothing symbolic remains once they are stubbed.",
